@@ -101,7 +101,8 @@ def _case(draw):
                 lr["r"] = lr["r"][:3]
             lr["a"] = draw(st.sampled_from([1e-10, 2.5e-9, 1.0, 3.3e-12]))
             lr["b"] = draw(st.sampled_from([0.0, 0.5, -0.5, 1.0, -1.5]))
-            lr["c"] = draw(st.sampled_from([0.0, 10.0, -10.0, 50.0]))
+            # (a fit may overflow or be undefined outside its own window: exp(8000/T) at 10 K; the guard must keep it exactly 0 there)
+            lr["c"] = draw(st.sampled_from([0.0, 10.0, -10.0, 50.0, -8000.0, -30000.0]))
             lr["tmin"], lr["tmax"] = (int(lo), int(hi)) if ints else (float(lo), float(hi))
             if fmt == "krome":
                 lo_t = "NONE" if lo <= 0 and draw(st.booleans()) else draw(st.sampled_from(KROME_LO))[0].format(_krome_num(draw, lo)) if lo > 0 else "NONE"
